@@ -522,7 +522,13 @@ func (f Float) Type() Type {
 }
 
 func (f Float) Inspect() string {
-	return strconv.FormatFloat(f.Value, 'f', -1, 64)
+	s := strconv.FormatFloat(f.Value, 'f', -1, 64)
+	// An integral value small enough to be read back as an integer keeps a ".0" so that it stays a float
+	// (beyond the integer range the digits alone are read as a float already).
+	if f.Value > -(1<<63) && f.Value < 1<<63 && !strings.Contains(s, ".") {
+		s += ".0"
+	}
+	return s
 }
 
 type Boolean struct {
